@@ -259,6 +259,16 @@ func genHistSpec(p *histParams, c *Corpus, run int) *RunSpec {
 			docs = append(docs, genAnyDoc(rd, c))
 		}
 	}
+	// same-shape runs: a document is followed by one of identical layout and different letters
+	rsh := root.Split("same-shape")
+	shapeRun := rsh.Chance(1, 5)
+	if shapeRun {
+		for i := 1; i < len(docs); i++ {
+			if len(docs[i-1]) > 0 && rsh.Chance(1, 2) {
+				docs[i] = sameShape(rsh, docs[i-1], rsh.Chance(2, 3))
+			}
+		}
+	}
 	spec := &RunSpec{Property: p.prop, Engine: "hist", VerifSeed: p.verifSeed, Run: run, RunSeed: fmt.Sprintf("%#x", seed), Cfg: cfg, Docs: docs}
 	var ops []Op
 	liveTrees := []int{}
@@ -273,7 +283,7 @@ func genHistSpec(p *histParams, c *Corpus, run int) *RunSpec {
 		}
 		return ro.Intn(len(docs))
 	}
-	reuseRun := ro.Split("reuse").Chance(1, 4) // in a quarter of the runs the caller reuses one read buffer
+	reuseRun := ro.Split("reuse").Chance(1, 4) || shapeRun && rsh.Chance(1, 2) // in a quarter of the runs the caller reuses one read buffer
 	for len(ops) < nOps {
 		k := ro.Intn(100)
 		stack := genStack(ro)
